@@ -585,7 +585,7 @@ pub fn drive(d: &mut Driver)
 	let quick = d.quick();
 	let mut jobs = Vec::new();
 	// family 1
-	let types: Vec<usize> = if quick { vec![0, 2, 5, 9, 10] } else { (0..INT_TYPES.len()).collect() };
+	let types: Vec<usize> = if quick { vec![0, 2, 4, 5, 9, 10] } else { (0..INT_TYPES.len()).collect() };
 	for ti in &types
 	{
 		jobs.push(json!({"family": "comparisons", "type": ti}));
